@@ -293,6 +293,36 @@ def swap (s : Store) (fuel pri sec : Nat) : Res Store := do
   let s3 ← s2.setParents sec fuel pn.children
   s3.setParents pri fuel sn.children
 
+/-- the neighbours of a re-placed node name it: predecessor's successor (or the parent's first child), successor's
+    predecessor -/
+def fixNbr (s : Store) (n : Nat) : Res Store := do
+  let nn ← s.get n
+  let s1 ← (match nn.prev with
+    | some p => s.modify p fun y => { y with next := some n }
+    | none =>
+      match nn.parent with
+      | some q => s.modify q fun y => { y with children := some n }
+      | none => .ok s)
+  match nn.next with
+  | some x => s1.modify x fun y => { y with prev := some n }
+  | none => .ok s1
+
+/-- `mpt_gnode_switch(pri, sec)`: the two nodes exchange their places (also when they are neighbours) -/
+def switch (s : Store) (pri sec : Nat) : Res Store :=
+  if pri = sec then .ok s else do
+  let pn ← s.get pri
+  let sn ← s.get sec
+  let s1 ← s.modify pri fun y => { y with
+    prev := if sn.prev = some pri then some sec else sn.prev,
+    next := if sn.next = some pri then some sec else sn.next,
+    parent := sn.parent }
+  let s2 ← s1.modify sec fun y => { y with
+    prev := if pn.prev = some sec then some pri else pn.prev,
+    next := if pn.next = some sec then some pri else pn.next,
+    parent := pn.parent }
+  let s3 ← fixNbr s2 pri
+  fixNbr s3 sec
+
 /-- `node->next->parent = node->parent; node->next->prev = node;` (when there is a successor) -/
 def relinkNext (s : Store) (node : Nat) : Res Store := do
   let nn ← s.get node
